@@ -297,6 +297,26 @@ def describe(ctx, v, depth=0):
     return str(v)[:160]
 
 
+def i_name_object(I, args, ins):
+    """verifNameObject(name, p): names a shared object (mutex, field or map) for the event traces."""
+    ctx = I.ctx
+    name = _label(args[0])
+    v = ctx.force(args[1])
+    if isinstance(v, Iface):
+        v = ctx.force(v.val)
+    names = ctx.ghost.setdefault('object_names', {})
+    if isinstance(v, Ptr):
+        names[repr(('ptr', v.cell, v.path))] = name
+    elif isinstance(v, MapRef):
+        names[repr(('map', v.cell))] = name
+    return None
+
+
+def i_op(I, args, ins):
+    I.ctx.event('op', _label(args[0]))
+    return None
+
+
 def i_note(I, args, ins):
     ctx = I.ctx
     ctx.ghost.setdefault('notes', []).append((_label(args[0]), describe(ctx, args[1])))
@@ -309,7 +329,7 @@ INTRINSICS = {
     'verifNondetByte': i_nondet_byte, 'verifNondetString': i_nondet_string, 'verifNondetBytes': i_nondet_bytes,
     'verifNondetTime': i_nondet_time, 'verifNondetTimeMs': i_nondet_time_ms,
     'verifNondetDuration': i_nondet_duration, 'verifChoose': i_choose, 'verifHavoc': i_havoc, 'verifNote': i_note,
-    'verifHex': i_hex, 'verifParam': i_param, 'verifNondetBytesLen': i_nondet_bytes_len, 'verifNondetStringNoColon': i_nondet_string_nocolon, 'verifNoColon': i_nocolon, 'verifNondetURL': i_nondet_url, 'verifAnd': i_and, 'verifOr': i_or,
+    'verifHex': i_hex, 'verifNameObject': i_name_object, 'verifOp': i_op, 'verifParam': i_param, 'verifNondetBytesLen': i_nondet_bytes_len, 'verifNondetStringNoColon': i_nondet_string_nocolon, 'verifNoColon': i_nocolon, 'verifNondetURL': i_nondet_url, 'verifAnd': i_and, 'verifOr': i_or,
 }
 
 
@@ -415,6 +435,8 @@ def run_path(harness, prefix, opts):
         'funcs_run': ctx.funcs_run, 'assumes': ctx.assumes, 'wall_s': time.time() - t0,
         'choices': ctx.trace_choices if opts.get('keep_choices') else None,
         'notes': ctx.ghost.get('notes') if opts.get('keep_choices') else None,
+        'events': [e for e in ctx.events if e and e[0] in ('lock', 'acc', 'op')] if opts.get('trace_shared') else None,
+        'names': ctx.ghost.get('object_names') if opts.get('trace_shared') else None,
     }
 
 
@@ -486,6 +508,11 @@ def explore(harness, opts, pool=None, max_paths=200000, deadline=None, progress=
             for n, c in r[k].items():
                 agg[k][n] = agg[k].get(n, 0) + c
         agg['assumes'].update(r['assumes'])
+        if r.get('events') is not None and r['status'] in ('ok', 'panic'):
+            from .interleave import normalise
+            op, tr = normalise(r['events'], r.get('names') or {})
+            if op is not None:
+                agg.setdefault('traces', {}).setdefault(op, set()).add(tuple(tr))
         if r['status'] == 'inconclusive':
             if len(agg['inconclusive']) < 50:
                 agg['inconclusive'].append(r['detail'])
